@@ -106,7 +106,7 @@ fn judge(w: &mut World, ctx: ReqCtx, p: &Prop, res: &Res, live: bool) {
                 }
             }
             if matches!(res, Res::Ok | Res::OkOp) {
-                w.violate(
+                w.violate_force(
                     "C19",
                     format!("illegal-accepted/{}/prop={:#04x}", ctx_name(ctx), p.id),
                     format!("{} with illegal property {:?} returned {} instead of InvalidRequest", ctx_name(ctx), p, res.name()),
@@ -115,7 +115,7 @@ fn judge(w: &mut World, ctx: ReqCtx, p: &Prop, res: &Res, live: bool) {
         }
         Legal::Yes => {
             if *res == Res::InvalidRequest {
-                w.violate(
+                w.violate_force(
                     "C19",
                     format!("legal-refused/{}/prop={:#04x}", ctx_name(ctx), p.id),
                     format!("{} with legal property {:?} was refused as InvalidRequest", ctx_name(ctx), p),
@@ -137,7 +137,9 @@ pub fn invalid_probe(conn: &mut Conn<'_, '_>) -> Res {
         let p = s[w.tape.choose(s.len() as u32) as usize].clone();
         (which, p)
     });
-    let live = conn.is_connected();
+    // (a run that was cut before this probe is not judged; one that is cut *by* this probe's own
+    // packet - the reference decoder rejecting what was sent - still is)
+    let live = conn.is_connected() && !with(|w| w.cut);
     let snapshot = (
         conn.session().is_publish_quiescent(),
         conn.can_publish(QoS::AtMostOnce),
@@ -152,7 +154,14 @@ pub fn invalid_probe(conn: &mut Conn<'_, '_>) -> Res {
                 gen_publish(w, q)
             });
             spec.props = vec![prop.clone()];
-            spec.correlate = None;
+            // a third of the probes also carry builder-attached correlation data (the typed
+            // request/reply path validates through a different representation)
+            spec.correlate = if prop.id != 0x09 && with(|w| w.tape.chance(1, 3)) {
+                with(|w| w.probe("invalid_probe_with_builder_correlation"));
+                Some(vec![0xC0, 0xDA])
+            } else {
+                None
+            };
             spec.payload_fails = false;
             let r = do_publish(conn, &spec);
             with(|w| {
@@ -298,7 +307,9 @@ pub fn will_table(w: &mut World) {
 
 /// One table entry (C19): issue a request of kind `ctx` carrying exactly `prop`.
 pub fn forced_probe(conn: &mut Conn<'_, '_>, ctx: ReqCtx, prop: &Prop) -> Res {
-    let live = conn.is_connected();
+    // (a run that was cut before this probe is not judged; one that is cut *by* this probe's own
+    // packet - the reference decoder rejecting what was sent - still is)
+    let live = conn.is_connected() && !with(|w| w.cut);
     let snapshot = (conn.session().is_publish_quiescent(), conn.can_publish(QoS::AtLeastOnce));
     let res = match ctx {
         ReqCtx::Publish => {
@@ -307,7 +318,14 @@ pub fn forced_probe(conn: &mut Conn<'_, '_>, ctx: ReqCtx, prop: &Prop) -> Res {
                 gen_publish(w, q)
             });
             spec.props = vec![prop.clone()];
-            spec.correlate = None;
+            // a third of the probes also carry builder-attached correlation data (the typed
+            // request/reply path validates through a different representation)
+            spec.correlate = if prop.id != 0x09 && with(|w| w.tape.chance(1, 3)) {
+                with(|w| w.probe("invalid_probe_with_builder_correlation"));
+                Some(vec![0xC0, 0xDA])
+            } else {
+                None
+            };
             spec.payload_fails = false;
             let r = do_publish(conn, &spec);
             with(|w| {
